@@ -83,6 +83,17 @@ class DomainAdapter(Adapter):
             w['d'].length = self._int(l['n'])
         else:
             raise MachineryError('unknown action ' + act)
+        # the FIRST transform after the configuration step, before anything reads the grids (a checker that inspects r and k
+        # first would trigger - and so hide - a lazy rebuild): forward and backward in turn
+        d = w['d']
+        w['turn'] = w.get('turn', 0) + 1
+        try:
+            m = int(d.length)
+            probe = np.cos(0.37 * np.arange(1, m + 1)) + 0.2
+            which = 'f' if w['turn'] % 2 else 'r'
+            w['first'] = (which, probe, np.array(d.to_fourier(probe.copy()) if which == 'f' else d.to_real(probe.copy()), dtype=float))
+        except Exception as ex:      # noqa
+            w['first'] = ('x', None, '%s: %s' % (type(ex).__name__, str(ex)[:160]))
         return {}
 
     def project(self, w):
@@ -106,6 +117,16 @@ class DomainAdapter(Adapter):
         BDK = mono(b['dk']) / self.s
         if d.length != n:
             bad('Length', expected=n, observed=d.length)
+        first = w.get('first')
+        if first is not None and first[0] == 'x':
+            bad('FirstTransformAfterSetter', observed=first[2], what='the first transform after the configuration step raised')
+        elif first is not None and len(first[1]) == n and n <= 300 and b['nr'] == n and b['nk'] == n:
+            MF0, MR0 = dense_transforms(n, BDR, BDK, self.fwd, self.bwd)
+            exp0 = (MF0 if first[0] == 'f' else MR0) @ first[1]
+            if first[2].shape != exp0.shape or rel(first[2], exp0) > 1e-11:
+                bad('FirstTransformAfterSetter', direction='to_fourier' if first[0] == 'f' else 'to_real',
+                    err=rel(first[2], exp0) if first[2].shape == exp0.shape else 'shape',
+                    what='the first transform after the configuration step (before the grids were read) differs from the specified transform')
         if 'grid' in self.which:
             if abs(d.dr - DR) > 8 * ULP * abs(DR):
                 bad('Spacing.dr', expected=DR, observed=float(d.dr))
@@ -166,11 +187,15 @@ class DomainAdapter(Adapter):
                 other.to_real(probe.copy())
                 if not (np.array_equal(keep_f, d.to_fourier(probe.copy())) and np.array_equal(keep_r, d.to_real(probe.copy()))):
                     bad('FreshEquivalent.other_domain', what='using another Domain object in between changed the transforms of this one')
-                # ... and stays one when the original is reconfigured afterwards (no shared mutable state)
+                # ... and copies share no mutable state: reconfiguring one copy leaves the other copy and the original alone.  (The
+                # object under test itself is NOT touched here: a setter call, however neutral for a correct Domain, changes what
+                # an implementation may remember about how the Domain was configured - it would be a step of the history)
                 keep = np.array(d2.to_fourier(probe.copy()))
-                d.dr = d.dr * 1.0
-                if not np.array_equal(keep, d2.to_fourier(probe.copy())):
-                    bad('FreshEquivalent.deepcopy', attribute='isolation', what='re-assigning dr on the original changed the deep copy')
+                d3 = copy.deepcopy(d)
+                d3.dr = d3.dr * 2.0
+                d3.to_fourier(probe.copy())
+                if not (np.array_equal(keep, d2.to_fourier(probe.copy())) and np.array_equal(keep_f, d.to_fourier(probe.copy()))):
+                    bad('FreshEquivalent.deepcopy', attribute='isolation', what='re-assigning dr on one deep copy changed another copy or the original')
         return out[:3]
 
     # ------------------------------------------------------------------------------
